@@ -1,7 +1,914 @@
 /-
-  Property C20 — theorems about QEModel.C20 (stub; to be filled in).
+  Property C20 — learning dynamics keep a valid state along every history.
+  Theorems about the definitions of QEModel.C20 (the ones `qedriver_c20` executes).
+
+  Reading guide.  Every random choice of the code is an explicit input of the model:
+  `inp.p` (revising player index), `inp.u` (KMR coin), `inp.sample` (SamplingBRD sample),
+  payoff perturbations, logit uniforms, and the on-demand stream `ri` of scalar `randint` draws.
+  The theorems quantify over *all* such inputs, so they hold along every history.
+
+  Totalised reads.  `pick` reads `s.getD r 0` for a drawn index `r`; for `r ≥ len s` (which
+  `randint(len s)` never returns) the model answers action 0.  The *validity* theorems
+  (`states_valid`, `fpStates_prob`, `liStates_range`, …) do not need to exclude this — any in-range
+  action keeps the state valid — and are stated for every stream (entries `< n` where KMR's
+  `randint(n)` is concerned, see the counter-example in the examples section).  The theorems that
+  say *which* action is chosen (`*_is_best_response`) carry the guard `r < len s` explicitly, and
+  the `tie_breaking='smallest'` theorems do not touch the stream.  Reads of payoff rows /
+  adjacency rows (`adj.getD i []`) are in range whenever `i < N = adj.length`, as in the code
+  (which raises `IndexError` otherwise); the time-series model `series` returns `none` exactly
+  where the code raises (`series_isSome`, `series_none_of_oob`).
+
+  Sections: BRD/KMR/SamplingBRD (T1 `brd_invariant` = `locate_spec` + `stepK_valid` +
+  `states_valid` + `brd_smallest_exact` + `kmr_step_cases` + `sbrd_step`), fictitious play
+  (T1 `fp_beliefs_simplex` = `fpStep_prob`/`fpStates_prob`/`fpStep_smallest_exact`, N players:
+  `fpStatesN_prob`), local interaction (`liStates_range`, `li_uses_old_profile`,
+  `li_async_changes_only_revisers`), logit dynamics (`logitStep_range`, `logitStates_inRange`),
+  the search model (`locate_is_searchsorted`), determinism (`stepK_smallest_stream_indep`).
 -/
 import QEModel.C20
+import QEProofs.Lemmas.C20Brd
+import QEProofs.Lemmas.C20Br
+import QEProofs.Lemmas.C20Fp
+import QEProofs.Lemmas.C20FpN
+import QEProofs.Lemmas.C20Li
+import QEProofs.Lemmas.C20Logit
+import QEProofs.Lemmas.C20Search
+import Mathlib.Data.List.Forall2
+import Mathlib.Algebra.Order.Field.Basic
+import Mathlib.Tactic.FieldSimp
+import Mathlib.Algebra.Order.Ring.Int
+import Mathlib.Algebra.Order.Ring.Rat
 namespace QE.C20
+
+variable {K : Type} [CommRing K] [LinearOrder K] [IsStrictOrderedRing K]
+
+/-! ## What "best response" means in the model -/
+
+omit [LinearOrder K] [IsStrictOrderedRing K] in
+/-- entry `i` of the payoff vector is the expected payoff `Σ_j A[i][j]·x[j]` of own action `i` -/
+theorem payoffVec_spec (A : List (List K)) (x : List K) (i : Nat) (hi : i < A.length) :
+    (payoffVec A x).length = A.length ∧
+    (payoffVec A x).getD i 0 = (List.zipWith (· * ·) (A.getD i []) x).sum := by
+  have hdot : ∀ (r y : List K), dot r y = (List.zipWith (· * ·) r y).sum := by
+    intro r
+    induction r with
+    | nil => intro y; simp [dot]
+    | cons a t ih =>
+      intro y
+      cases y with
+      | nil => simp [dot]
+      | cons b u => simp [dot, ih]
+  refine ⟨by simp [payoffVec], ?_⟩
+  simp [payoffVec, List.getD_eq_getElem?_getD, hi, hdot]
+
+omit [IsStrictOrderedRing K] in
+/-- `maxL` is the maximum of a non-empty payoff vector: attained, and an upper bound -/
+theorem maxL_is_max (pv : List K) (h : pv ≠ []) : maxL pv ∈ pv ∧ ∀ v ∈ pv, v ≤ maxL pv :=
+  ⟨maxL_mem pv h, fun v hv => le_maxL pv v hv⟩
+
+omit [IsStrictOrderedRing K] in
+/-- the set of best responses: exactly the own actions whose payoff is within `tol` of the maximum
+    (`np.where(payoff_vector >= payoff_vector.max() - tol)[0]`), listed in increasing order -/
+theorem brSet_spec (pv : List K) (tol : K) :
+    (∀ i, i ∈ brSet pv tol ↔ i < pv.length ∧ maxL pv - tol ≤ pv.getD i 0) ∧
+    (brSet pv tol).Pairwise (· < ·) := by
+  refine ⟨fun i => by simp [brSet], ?_⟩
+  unfold brSet
+  exact List.Pairwise.filter _ List.pairwise_lt_range
+
+/-! ## BRD / KMR / SamplingBRD -/
+
+/-- **The revising player's action.** On a valid state (non-negative counts of length `n` summing to
+    `N`) and a player index `0 ≤ p < N`, `searchsorted(cumsum, p, side='right')` returns an action
+    `a < n` whose count is positive (so the decrement never goes below 0), namely the action of the
+    `p`-th player when players are ordered by action. -/
+theorem locate_spec (N : Int) (n : Nat) (d : List Int) (p : Int) (hv : Valid N n d)
+    (h0 : 0 ≤ p) (hp : p < N) :
+    locate d p < n ∧ 0 < d.getD (locate d p) 0 ∧
+      (d.take (locate d p)).sum ≤ p ∧ p < (d.take (locate d p + 1)).sum := by
+  obtain ⟨hl, hnn, hs⟩ := hv
+  have := searchRight_cumsumFrom d 0 p hnn h0 (by omega)
+  simp only [Int.zero_add] at this
+  unfold locate cumsum
+  exact ⟨by omega, this.2.1, this.2.2.1, this.2.2.2⟩
+
+/-- a player index `p ≥ N` makes the search run off the end: `action = num_actions`
+    (in the code: `IndexError` at `action_dist[action] -= 1`) -/
+theorem locate_oob (N : Int) (n : Nat) (d : List Int) (p : Int) (hv : Valid N n d) (hp : N ≤ p) :
+    locate d p = d.length := by
+  obtain ⟨_, hnn, hs⟩ := hv
+  exact searchRight_cumsumFrom_ge d 0 p hnn (by omega)
+
+example : Valid 5 3 [2, 0, 3] := by
+  refine ⟨rfl, ?_, rfl⟩
+  intro j hj
+  have : j = 0 ∨ j = 1 ∨ j = 2 := by simp at hj; omega
+  rcases this with rfl | rfl | rfl <;> decide
+example : locate [2, 0, 3] 2 = 2 := by decide   -- skips the empty action 1
+example : locate [2, 0, 3] 5 = 3 := by decide   -- off the end
+
+/-- **Every variant of `play` moves exactly one player**: for an in-range action `a`, the result of
+    `BRD.play`, `KMR.play` (mutation or not) and `SamplingBRD.play` is `move d a b` (one player
+    removed from `a`, one added to `b`) for some action `b < n`; and it consumes a prefix of the
+    `randint` stream.  Holds for every tie-breaking mode, coin, sample and stream whose entries are
+    `< n` (what `randint(len)`/`randint(n)` return). -/
+theorem playK_is_move (ι : Int → K) (G : Game K) (k : Kind K) (inp : Inp K) (a : Nat) (d : List Int)
+    (ri : List Nat) (hA : G.A.length = d.length) (hn : 0 < d.length) (hri : ∀ r ∈ ri, r < d.length) :
+    ∃ b, b < d.length ∧ (playK ι G k inp a d ri).1 = move d a b ∧
+      ∀ r ∈ (playK ι G k inp a d ri).2, r ∈ ri := by
+  have hn' : 0 < G.A.length := by omega
+  cases k with
+  | brd =>
+    exact ⟨_, by rw [← hA]; exact brPick_fst_lt G _ none ri hn', rfl, brPick_snd_sub G _ none ri⟩
+  | sbrd =>
+    exact ⟨_, by rw [← hA]; exact brPick_fst_lt G _ none ri hn', rfl, brPick_snd_sub G _ none ri⟩
+  | kmr eps =>
+    by_cases hu : inp.u < eps
+    · refine ⟨(randomAction G.A.length ri).1, ?_, ?_, ?_⟩
+      · rw [← hA]; exact randomAction_fst_lt _ _ hn' (by rw [hA]; exact hri)
+      · simp [playK, kmrPlay, hu, move]
+      · simp only [playK, kmrPlay, hu, if_true]; exact randomAction_snd_sub _ _
+    · refine ⟨(brPick G ((bump d a (-1)).map ι) none ri).1, by rw [← hA]; exact brPick_fst_lt G _ none ri hn', ?_, ?_⟩
+      · simp only [playK, kmrPlay, hu, if_false]; rfl
+      · simp only [playK, kmrPlay, hu, if_false]; exact brPick_snd_sub G _ none ri
+
+/-- **One period keeps the state valid** and moves at most one player: with `a` the located action,
+    the next state is `move d a b` for some `b < n`, i.e. entrywise
+    `next[j] = d[j] − [j = a] + [j = b]`. -/
+theorem stepK_valid (ι : Int → K) (G : Game K) (k : Kind K) (inp : Inp K) (N : Int) (n : Nat)
+    (d : List Int) (ri : List Nat) (hA : G.A.length = n) (hv : Valid N n d)
+    (h0 : 0 ≤ inp.p) (hp : inp.p < N) (hri : ∀ r ∈ ri, r < n) :
+    Valid N n (stepK ι G k inp (d, ri)).1 ∧ (∀ r ∈ (stepK ι G k inp (d, ri)).2, r < n) ∧
+    ∃ b, b < n ∧ ∀ j, (stepK ι G k inp (d, ri)).1.getD j 0 =
+      d.getD j 0 - (if j = locate d inp.p then 1 else 0) + (if j = b then 1 else 0) := by
+  obtain ⟨ha, hpos, _, _⟩ := locate_spec N n d inp.p hv h0 hp
+  have hl : d.length = n := hv.1
+  obtain ⟨b, hb, hmove, hsub⟩ := playK_is_move ι G k inp (locate d inp.p) d ri (by omega) (by omega)
+    (by rw [hl]; exact hri)
+  refine ⟨?_, fun r hr => hri r (hsub r hr), b, by omega, ?_⟩
+  · show Valid N n (playK ι G k inp (locate d inp.p) d ri).1
+    rw [hmove]; exact move_valid N n d _ b hv ha hpos (by omega)
+  · intro j
+    show (playK ι G k inp (locate d inp.p) d ri).1.getD j 0 = _
+    rw [hmove]; exact move_getD d _ b j (by omega) (by omega)
+
+/-- **Invariant along every history (BRD, KMR, SamplingBRD).**  For every sequence of per-period
+    inputs whose player indices lie in `[0, N)`, every tie-breaking mode, every coin sequence,
+    every sample sequence and every `randint` stream with entries `< n`: all states visited
+    (`out[0..T-1]` and the final state) are vectors of `n` non-negative integers summing to `N`. -/
+theorem states_valid (ι : Int → K) (G : Game K) (k : Kind K) (N : Int) (n : Nat) (hA : G.A.length = n) :
+    ∀ (inps : List (Inp K)) (s : List Int × List Nat),
+      (∀ inp ∈ inps, 0 ≤ inp.p ∧ inp.p < N) → Valid N n s.1 → (∀ r ∈ s.2, r < n) →
+      ∀ t ∈ states ι G k inps s, Valid N n t.1 := by
+  intro inps
+  induction inps with
+  | nil => intro s _ hv _ t ht; simp [states] at ht; rw [ht]; exact hv
+  | cons inp rest ih =>
+    intro s hin hv hri t ht
+    simp only [states, List.mem_cons] at ht
+    rcases ht with rfl | ht
+    · exact hv
+    · obtain ⟨h0, hp⟩ := hin inp (by simp)
+      obtain ⟨hv', hri', _⟩ := stepK_valid ι G k inp N n s.1 s.2 hA hv h0 hp hri
+      exact ih _ (fun i hi => hin i (List.mem_cons_of_mem _ hi)) hv' hri' t ht
+
+/-- **`init_action_dist=None`**: the initial condition the code draws for itself
+    (`_set_action_dist` of one in-range action per player) is valid, hence — by `states_valid` — so
+    is every state of the run. -/
+theorem states_valid_from_drawn_init (ι : Int → K) (G : Game K) (k : Kind K) (n : Nat) (hA : G.A.length = n)
+    (acts : List Nat) (hacts : ∀ a ∈ acts, a < n) (inps : List (Inp K)) (ri : List Nat)
+    (hin : ∀ inp ∈ inps, 0 ≤ inp.p ∧ inp.p < (acts.length : Int)) (hri : ∀ r ∈ ri, r < n) :
+    ∀ t ∈ states ι G k inps (setActionDist n acts, ri), Valid (acts.length : Int) n t.1 :=
+  states_valid ι G k _ n hA inps (setActionDist n acts, ri) hin (setActionDist_valid n acts hacts) hri
+
+omit [IsStrictOrderedRing K] in
+/-- `time_series` (with its `IndexError` branch) returns exactly the visited states -/
+theorem series_some_states (ι : Int → K) (G : Game K) (k : Kind K) :
+    ∀ (inps : List (Inp K)) (s : List Int × List Nat) (rows : List (List Int)) (fin : List Int × List Nat),
+      series ι G k inps s = some (rows, fin) →
+      (states ι G k inps s).map Prod.fst = rows ++ [fin.1] ∧ rows.length = inps.length := by
+  intro inps
+  induction inps with
+  | nil => intro s rows fin h; simp [series] at h; obtain ⟨rfl, rfl⟩ := h; simp [states]
+  | cons inp rest ih =>
+    intro s rows fin h
+    simp only [series] at h
+    split at h
+    · split at h
+      · rename_i rows' fin' heq
+        simp only [Option.some.injEq, Prod.mk.injEq] at h
+        obtain ⟨rfl, rfl⟩ := h
+        obtain ⟨h1, h2⟩ := ih _ _ _ heq
+        simp [states, h1, h2]
+      · simp at h
+    · simp at h
+
+/-- **No `IndexError` on valid histories**: under the hypotheses of `states_valid`, `time_series`
+    returns (is `some`). -/
+theorem series_isSome (ι : Int → K) (G : Game K) (k : Kind K) (N : Int) (n : Nat) (hA : G.A.length = n) :
+    ∀ (inps : List (Inp K)) (s : List Int × List Nat),
+      (∀ inp ∈ inps, 0 ≤ inp.p ∧ inp.p < N) → Valid N n s.1 → (∀ r ∈ s.2, r < n) →
+      (series ι G k inps s).isSome = true := by
+  intro inps
+  induction inps with
+  | nil => intro s _ _ _; simp [series]
+  | cons inp rest ih =>
+    intro s hin hv hri
+    obtain ⟨h0, hp⟩ := hin inp (by simp)
+    obtain ⟨ha, _, _, _⟩ := locate_spec N n s.1 inp.p hv h0 hp
+    obtain ⟨hv', hri', _⟩ := stepK_valid ι G k inp N n s.1 s.2 hA hv h0 hp hri
+    have := ih (stepK ι G k inp s) (fun i hi => hin i (List.mem_cons_of_mem _ hi)) hv' hri'
+    simp only [series]
+    rw [if_pos (by rw [hv.1]; exact ha)]
+    cases hser : series ι G k rest (stepK ι G k inp s) with
+    | none => rw [hser] at this; simp at this
+    | some v => simp
+
+/-- **What `time_series` returns** (the function the driver executes, error branch included):
+    under the hypotheses of `states_valid` it returns `T` rows, every row and the final state
+    (left in the caller's array) being a valid action distribution. -/
+theorem series_rows_valid (ι : Int → K) (G : Game K) (k : Kind K) (N : Int) (n : Nat) (hA : G.A.length = n)
+    (inps : List (Inp K)) (s : List Int × List Nat)
+    (hin : ∀ inp ∈ inps, 0 ≤ inp.p ∧ inp.p < N) (hv : Valid N n s.1) (hri : ∀ r ∈ s.2, r < n) :
+    ∃ rows fin, series ι G k inps s = some (rows, fin) ∧ rows.length = inps.length ∧
+      (∀ r ∈ rows, Valid N n r) ∧ Valid N n fin.1 := by
+  have hsome := series_isSome ι G k N n hA inps s hin hv hri
+  cases hser : series ι G k inps s with
+  | none => rw [hser] at hsome; simp at hsome
+  | some v =>
+    obtain ⟨rows, fin⟩ := v
+    obtain ⟨h1, h2⟩ := series_some_states ι G k inps s rows fin hser
+    have hall : ∀ r ∈ rows ++ [fin.1], Valid N n r := by
+      intro r hr
+      rw [← h1] at hr
+      obtain ⟨t, ht, rfl⟩ := List.mem_map.1 hr
+      exact states_valid ι G k N n hA inps s hin hv hri t ht
+    exact ⟨rows, fin, rfl, h2, fun r hr => hall r (List.mem_append_left _ hr),
+      hall fin.1 (List.mem_append_right _ (by simp))⟩
+
+omit [IsStrictOrderedRing K] in
+/-- … and conversely a player index `≥ N` on a valid state is the `IndexError` -/
+theorem series_none_of_oob (ι : Int → K) (G : Game K) (k : Kind K) (N : Int) (n : Nat)
+    (inp : Inp K) (rest : List (Inp K)) (s : List Int × List Nat) (hv : Valid N n s.1) (hp : N ≤ inp.p) :
+    series ι G k (inp :: rest) s = none := by
+  simp [series, locate_oob N n s.1 inp.p hv hp]
+
+/-- **Exact transition with `tie_breaking='smallest'` (BRD).**  The next state is "remove the
+    revising player (action `a`), add the smallest best response `b` to the others":
+    with `pv = A · (d − e_a)`, `b` satisfies `pv[b] ≥ max pv − tol` and no smaller index does;
+    the `randint` stream is not touched. -/
+theorem brd_smallest_exact (ι : Int → K) (G : Game K) (inp : Inp K) (N : Int) (n : Nat)
+    (d : List Int) (ri : List Nat) (hA : G.A.length = n) (hv : Valid N n d)
+    (h0 : 0 ≤ inp.p) (hp : inp.p < N) (hrnd : G.rnd = false) (htol : 0 ≤ G.tol) :
+    let a := locate d inp.p
+    let pv := payoffVec G.A ((bump d a (-1)).map ι)
+    ∃ b, stepK ι G .brd inp (d, ri) = (move d a b, ri) ∧ b < n ∧
+      maxL pv - G.tol ≤ pv.getD b 0 ∧ ∀ j, j < b → ¬ (maxL pv - G.tol ≤ pv.getD j 0) := by
+  intro a pv
+  obtain ⟨ha, _, _, _⟩ := locate_spec N n d inp.p hv h0 hp
+  have hpv : pv ≠ [] := by
+    intro h
+    have := payoffVec_length G.A ((bump d a (-1)).map ι)
+    rw [show payoffVec G.A ((bump d a (-1)).map ι) = pv from rfl, h] at this
+    simp at this; omega
+  cases hs : brSet pv G.tol with
+  | nil => exact absurd hs (brSet_ne_nil pv G.tol hpv htol)
+  | cons b rest =>
+    obtain ⟨⟨hb1, hb2⟩, hb3⟩ := brSet_head_min pv G.tol b rest hs
+    refine ⟨b, ?_, ?_, hb2, hb3⟩
+    · show brdPlay ι G a d ri = _
+      unfold brdPlay brPick
+      simp only [addPert, hrnd, pick_smallest]
+      rw [show payoffVec G.A ((bump d a (-1)).map ι) = pv from rfl, hs]
+      rfl
+    · have := payoffVec_length G.A ((bump d a (-1)).map ι)
+      rw [show payoffVec G.A ((bump d a (-1)).map ι) = pv from rfl] at this
+      omega
+
+omit [IsStrictOrderedRing K] in
+/-- **KMR transition**: a mutation (`u < ε`) moves the reviser to the drawn random action, otherwise
+    the period is a BRD period. -/
+theorem kmr_step_cases (ι : Int → K) (G : Game K) (eps : K) (inp : Inp K) (d : List Int) (ri : List Nat) :
+    (inp.u < eps → stepK ι G (.kmr eps) inp (d, ri) =
+        (move d (locate d inp.p) (randomAction G.A.length ri).1, (randomAction G.A.length ri).2)) ∧
+    (¬ inp.u < eps → stepK ι G (.kmr eps) inp (d, ri) = stepK ι G .brd inp (d, ri)) := by
+  constructor
+  · intro hu; simp [stepK, playK, kmrPlay, hu, move]
+  · intro hu; simp [stepK, playK, kmrPlay, hu]
+
+omit [IsStrictOrderedRing K] in
+/-- **Determinism.**  The model's step is a *function* of (state, injected inputs) — equal seeds give
+    equal recorded inputs and hence equal histories — and with `tie_breaking='smallest'` BRD and
+    SamplingBRD do not read the `randint` stream at all: the next state is the same for every
+    stream, which is returned untouched. -/
+theorem stepK_smallest_stream_indep (ι : Int → K) (G : Game K) (inp : Inp K) (d : List Int)
+    (ri ri' : List Nat) (hrnd : G.rnd = false) :
+    (stepK ι G .brd inp (d, ri)).1 = (stepK ι G .brd inp (d, ri')).1 ∧ (stepK ι G .brd inp (d, ri)).2 = ri ∧
+    (stepK ι G .sbrd inp (d, ri)).1 = (stepK ι G .sbrd inp (d, ri')).1 ∧ (stepK ι G .sbrd inp (d, ri)).2 = ri := by
+  simp [stepK, playK, brdPlay, sbrdPlay, brPick, hrnd, pick_smallest]
+
+omit [IsStrictOrderedRing K] in
+/-- **SamplingBRD transition**: the reviser best-responds to the *sample's* action counts. -/
+theorem sbrd_step (ι : Int → K) (G : Game K) (inp : Inp K) (d : List Int) (ri : List Nat) :
+    stepK ι G .sbrd inp (d, ri) =
+      (move d (locate d inp.p) (brPick G ((bincount G.A.length inp.sample).map ι) none ri).1,
+       (brPick G ((bincount G.A.length inp.sample).map ι) none ri).2) := rfl
+
+/-! ## FictitiousPlay / StochasticFictitiousPlay (two players) -/
+
+/-- the shape invariant of a belief profile: each belief has one entry per action of its owner and
+    is a probability vector -/
+def FpOK (G0 G1 : Game K) (x : List K × List K) : Prop :=
+  x.1.length = G0.A.length ∧ x.2.length = G1.A.length ∧ 0 < G0.A.length ∧ 0 < G1.A.length ∧
+  IsProb x.1 ∧ IsProb x.2
+
+/-- **One period of (stochastic) fictitious play**, any tie-breaking mode, any perturbations, any
+    `randint` stream, any step size `γ ∈ [0,1]`: each belief moves to `(1−γ)·x + γ·e_b` for an
+    in-range action `b`, hence stays a probability vector. Entrywise form of the update included. -/
+theorem fpStep_prob (G0 G1 : Game K) (inp : FpInp K) (s : (List K × List K) × List Nat)
+    (h0 : 0 ≤ inp.γ) (h1 : inp.γ ≤ 1) (hs : FpOK G0 G1 s.1) :
+    FpOK G0 G1 (fpStep G0 G1 inp s).1 ∧
+    ∃ b0 b1, b0 < G0.A.length ∧ b1 < G1.A.length ∧
+      (∀ j, (fpStep G0 G1 inp s).1.1.getD j 0 = s.1.1.getD j 0 * (1 - inp.γ) + (if j = b0 then inp.γ else 0)) ∧
+      (∀ j, (fpStep G0 G1 inp s).1.2.getD j 0 = s.1.2.getD j 0 * (1 - inp.γ) + (if j = b1 then inp.γ else 0)) := by
+  obtain ⟨hl0, hl1, hn0, hn1, hp0, hp1⟩ := hs
+  have hb0 := brPick_fst_lt G0 s.1.2 inp.pert0 s.2 hn0
+  have hb1 := brPick_fst_lt G1 s.1.1 inp.pert1 (brPick G0 s.1.2 inp.pert0 s.2).2 hn1
+  refine ⟨⟨?_, ?_, hn0, hn1, ?_, ?_⟩, _, _, hb0, hb1, ?_, ?_⟩
+  · simp [fpStep, scaleAdd_length, hl0]
+  · simp [fpStep, scaleAdd_length, hl1]
+  · exact scaleAdd_prob _ _ _ (by omega) h0 h1 hp0
+  · exact scaleAdd_prob _ _ _ (by omega) h0 h1 hp1
+  · intro j; exact scaleAdd_getD _ _ _ j (by omega)
+  · intro j; exact scaleAdd_getD _ _ _ j (by omega)
+
+/-- **Beliefs stay probability vectors along every history** (FictitiousPlay and
+    StochasticFictitiousPlay): for every sequence of step sizes in `[0,1]`, perturbations,
+    tie-breaking mode and `randint` stream, every recorded belief profile is a pair of
+    probability vectors of the right lengths. -/
+theorem fpStates_prob (G0 G1 : Game K) :
+    ∀ (inps : List (FpInp K)) (s : (List K × List K) × List Nat),
+      (∀ inp ∈ inps, 0 ≤ inp.γ ∧ inp.γ ≤ 1) → FpOK G0 G1 s.1 →
+      ∀ t ∈ fpStates G0 G1 inps s, FpOK G0 G1 t.1 := by
+  intro inps
+  induction inps with
+  | nil => intro s _ hs t ht; simp [fpStates] at ht; rw [ht]; exact hs
+  | cons inp rest ih =>
+    intro s hin hs t ht
+    simp only [fpStates, List.mem_cons] at ht
+    rcases ht with rfl | ht
+    · exact hs
+    · obtain ⟨h0, h1⟩ := hin inp (by simp)
+      exact ih _ (fun i hi => hin i (List.mem_cons_of_mem _ hi)) (fpStep_prob G0 G1 inp s h0 h1 hs).1 t ht
+
+/-- **Exact transition with `tie_breaking='smallest'`: simultaneous update towards best responses
+    to the *previous* beliefs.**  With `pv0 = A0·x1_old (+ pert0)` and `pv1 = A1·x0_old (+ pert1)`
+    — both computed from the old profile — the new profile is
+    `(scaleAdd x0_old γ b0, scaleAdd x1_old γ b1)` where `b_i` is the smallest index with
+    `pv_i[b_i] ≥ max pv_i − tol`; no `randint` is consumed. -/
+theorem fpStep_smallest_exact (G0 G1 : Game K) (inp : FpInp K) (s : (List K × List K) × List Nat)
+    (hr0 : G0.rnd = false) (hr1 : G1.rnd = false) (ht0 : 0 ≤ G0.tol) (ht1 : 0 ≤ G1.tol)
+    (hpv0 : addPert (payoffVec G0.A s.1.2) inp.pert0 ≠ [])
+    (hpv1 : addPert (payoffVec G1.A s.1.1) inp.pert1 ≠ []) :
+    let pv0 := addPert (payoffVec G0.A s.1.2) inp.pert0
+    let pv1 := addPert (payoffVec G1.A s.1.1) inp.pert1
+    ∃ b0 b1, fpStep G0 G1 inp s = ((scaleAdd s.1.1 inp.γ b0, scaleAdd s.1.2 inp.γ b1), s.2) ∧
+      (maxL pv0 - G0.tol ≤ pv0.getD b0 0 ∧ ∀ j, j < b0 → ¬ (maxL pv0 - G0.tol ≤ pv0.getD j 0)) ∧
+      (maxL pv1 - G1.tol ≤ pv1.getD b1 0 ∧ ∀ j, j < b1 → ¬ (maxL pv1 - G1.tol ≤ pv1.getD j 0)) := by
+  intro pv0 pv1
+  obtain ⟨b0, e0, ⟨_, hb0⟩, hm0⟩ := brPick_smallest G0 s.1.2 inp.pert0 s.2 hr0 hpv0 ht0
+  obtain ⟨b1, e1, ⟨_, hb1⟩, hm1⟩ := brPick_smallest G1 s.1.1 inp.pert1 s.2 hr1 hpv1 ht1
+  refine ⟨b0, b1, ?_, ⟨hb0, hm0⟩, ⟨hb1, hm1⟩⟩
+  simp only [fpStep, e0, e1]
+
+/-! ### N players (general `Player.payoff_vector`) -/
+
+/-- one belief per player, of the right length, each a probability vector -/
+def FpNOK (nums : List Nat) (xs : List (List K)) : Prop :=
+  xs.map List.length = nums ∧ ∀ x ∈ xs, IsProb x
+
+/-- **One period of N-player (stochastic) fictitious play keeps every belief a probability vector**
+    (any tie-breaking, perturbations, stream, step size in `[0,1]`), provided the payoff arrays have
+    the shapes `nums[i] × ∏ (opponents' action counts)` and every player has an action. -/
+theorem fpStepN_prob (Gs : List (GameN K)) (nums : List Nat) (γ : K) (perts : List (Option (List K)))
+    (s : List (List K) × List Nat) (hN : Gs.length = nums.length) (hsh : ShapeFrom nums 0 Gs)
+    (hpos : ∀ m ∈ nums, 0 < m) (h0 : 0 ≤ γ) (h1 : γ ≤ 1) (hs : FpNOK nums s.1) :
+    FpNOK nums (fpStepN Gs γ perts s).1 := by
+  obtain ⟨hxs, hprob⟩ := hs
+  obtain ⟨hbl, hbr⟩ := brsN_range nums s.1 perts hxs hpos Gs 0 s.2 hsh
+  have hxl : s.1.length = nums.length := by rw [← hxs]; simp
+  have hlen : ∀ k (hk : k < s.1.length), (s.1[k]).length = nums.getD k 0 := by
+    intro k hk
+    have : (s.1.map List.length)[k]'(by simpa using hk) = nums[k]'(by omega) := by simp [hxs]
+    rw [List.getD_eq_getElem?_getD, List.getElem?_eq_getElem (by omega), Option.getD_some, ← this]
+    simp
+  refine ⟨?_, ?_⟩
+  · rw [← hxs]
+    apply List.ext_getElem
+    · simp [fpStepN, hbl, hN, hxl]
+    · intro k hk1 hk2
+      simp [fpStepN, scaleAdd_length]
+  · intro x hx
+    obtain ⟨k, hk, rfl⟩ := List.mem_iff_getElem.1 hx
+    have hk' : k < s.1.length ∧ k < (brsN s.1 perts 0 Gs s.2).1.length := by
+      simpa [fpStepN] using hk
+    simp only [fpStepN, List.getElem_zipWith]
+    apply scaleAdd_prob _ _ _ _ h0 h1 (hprob _ (List.getElem_mem hk'.1))
+    rw [hlen k hk'.1]
+    simpa using hbr k hk'.2
+
+omit [IsStrictOrderedRing K] in
+/-- **Exact N-player transition with `tie_breaking='smallest'`**: every player `k` moves its belief
+    to `(1−γ)·x_k + γ·e_b` where `b` is the first element of the best-response set against the
+    *previous* beliefs of the others (in the order `k+1, …, N-1, 0, …, k-1`), all best responses being
+    computed before any belief changes; the stream is untouched. -/
+theorem fpStepN_smallest_exact (Gs : List (GameN K)) (γ : K) (perts : List (Option (List K)))
+    (s : List (List K) × List Nat) (hr : ∀ G ∈ Gs, G.rnd = false) (hN : Gs.length = s.1.length) :
+    (fpStepN Gs γ perts s).2 = s.2 ∧ (fpStepN Gs γ perts s).1.length = s.1.length ∧
+    ∀ k (h : k < (fpStepN Gs γ perts s).1.length) (hx : k < s.1.length) (hG : k < Gs.length),
+      (fpStepN Gs γ perts s).1[k] = scaleAdd s.1[k] γ
+        ((brSet (addPert (payoffVecN Gs[k].flat (rot k s.1)) (perts.getD k none)) Gs[k].tol).headD 0) := by
+  obtain ⟨h1, h2, h3⟩ := brsN_smallest s.1 perts Gs 0 s.2 hr
+  refine ⟨h1, by simp [fpStepN, h2, hN], ?_⟩
+  intro k h hx hG
+  have hk : k < (brsN s.1 perts 0 Gs s.2).1.length := by rw [h2]; exact hG
+  simp only [fpStepN, List.getElem_zipWith]
+  rw [h3 k hk hG]
+  simp
+
+omit [IsStrictOrderedRing K] in
+/-- **The N-player model specialises to the 2-player model**: on flattened payoff matrices with
+    well-shaped rows, one period of `fpStepN` with two players is one period of `fpStep`. -/
+theorem fpStepN_two_players (G0 G1 : Game K) (inp : FpInp K) (x0 x1 : List K) (ri : List Nat)
+    (h0 : 0 < x0.length) (h1 : 0 < x1.length)
+    (hr0 : ∀ r ∈ G0.A, r.length = x1.length) (hr1 : ∀ r ∈ G1.A, r.length = x0.length) :
+    fpStepN [⟨G0.A.flatten, G0.tol, G0.rnd⟩, ⟨G1.A.flatten, G1.tol, G1.rnd⟩] inp.γ [inp.pert0, inp.pert1]
+        ([x0, x1], ri) =
+      ([(fpStep G0 G1 inp ((x0, x1), ri)).1.1, (fpStep G0 G1 inp ((x0, x1), ri)).1.2],
+       (fpStep G0 G1 inp ((x0, x1), ri)).2) := by
+  have e0 : payoffVecN G0.A.flatten [x1] = payoffVec G0.A x1 := payoffVecN_flatten G0.A x1 h1 hr0
+  have e1 : payoffVecN G1.A.flatten [x0] = payoffVec G1.A x0 := payoffVecN_flatten G1.A x0 h0 hr1
+  simp [fpStepN, fpStep, brsN, brPickN, brPick, rot, e0, e1]
+
+/-- **N-player beliefs stay probability vectors along every history.** -/
+theorem fpStatesN_prob (Gs : List (GameN K)) (nums : List Nat) (hN : Gs.length = nums.length)
+    (hsh : ShapeFrom nums 0 Gs) (hpos : ∀ m ∈ nums, 0 < m) :
+    ∀ (inps : List (K × List (Option (List K)))) (s : List (List K) × List Nat),
+      (∀ inp ∈ inps, 0 ≤ inp.1 ∧ inp.1 ≤ 1) → FpNOK nums s.1 →
+      ∀ t ∈ fpStatesN Gs inps s, FpNOK nums t.1 := by
+  intro inps
+  induction inps with
+  | nil => intro s _ hs t ht; simp [fpStatesN] at ht; rw [ht]; exact hs
+  | cons inp rest ih =>
+    intro s hin hs t ht
+    simp only [fpStatesN, List.mem_cons] at ht
+    rcases ht with rfl | ht
+    · exact hs
+    · obtain ⟨h0, h1⟩ := hin inp (by simp)
+      exact ih _ (fun i hi => hin i (List.mem_cons_of_mem _ hi))
+        (fpStepN_prob Gs nums inp.1 inp.2 s hN hsh hpos h0 h1 hs) t ht
+
+section field
+variable {F : Type} [Field F] [LinearOrder F] [IsStrictOrderedRing F]
+
+/-- the documented step sizes lie in `(0, 1]`: `1/(t+2)` for the decreasing-gain model -/
+theorem stepSize_decreasing (t : Nat) :
+    stepSize (fun n : Nat => (n : F)) none t = 1 / ((t : F) + 2) ∧
+    0 < stepSize (fun n : Nat => (n : F)) none t ∧ stepSize (fun n : Nat => (n : F)) none t ≤ 1 := by
+  have hpos : (0 : F) < (t : F) + 2 := by positivity
+  refine ⟨by simp [stepSize], ?_, ?_⟩
+  · simp only [stepSize, Nat.cast_add, Nat.cast_ofNat]; positivity
+  · simp only [stepSize, Nat.cast_add, Nat.cast_ofNat]
+    rw [div_le_one hpos]
+    have : (0 : F) ≤ (t : F) := Nat.cast_nonneg t
+    linarith
+
+/-- **Decreasing gain = running average**: with the documented step `1/(t+2)` the update
+    `(1−γ)x + γ e_b` is `(t+2)·x_new = (t+1)·x_old + e_b`, i.e. the recorded vector is the running
+    average of the player's past best responses (the initial vector entering with weight `t₀+1`). -/
+theorem scaleAdd_decreasing_gain (x : List F) (t b j : Nat) (hb : b < x.length) :
+    ((t : F) + 2) * (scaleAdd x (stepSize (fun n : Nat => (n : F)) none t) b).getD j 0 =
+      ((t : F) + 1) * x.getD j 0 + (if j = b then 1 else 0) := by
+  have hpos : (0 : F) < (t : F) + 2 := by positivity
+  have hne : (t : F) + 2 ≠ 0 := ne_of_gt hpos
+  rw [(stepSize_decreasing (F := F) t).1, scaleAdd_getD x _ b j hb]
+  split <;> field_simp <;> ring
+
+omit [LinearOrder F] [IsStrictOrderedRing F] in
+/-- constant gain: the step size is the gain -/
+theorem stepSize_constant (g : F) (t : Nat) : stepSize (fun n : Nat => (n : F)) (some g) t = g := rfl
+
+end field
+
+/-! ## LocalInteraction -/
+
+omit [LinearOrder K] [IsStrictOrderedRing K] in
+/-- entry `c` of the neighbour-count vector of a player with adjacency row `row`: the total weight of
+    the neighbours currently playing `c` (`adj_matrix[i].dot(one-hot(actions))[c]`) -/
+theorem nbrCounts_spec (row : List K) (actions : List Nat) (n c : Nat) (hc : c < n) :
+    (nbrCounts row actions n).length = n ∧
+    (nbrCounts row actions n).getD c 0 =
+      (List.zipWith (fun w a => if a = c then w else 0) row actions).sum := by
+  have hw : ∀ (r : List K) (as : List Nat), wsum r as c = (List.zipWith (fun w a => if a = c then w else 0) r as).sum := by
+    intro r
+    induction r with
+    | nil => intro as; simp [wsum]
+    | cons w t ih =>
+      intro as
+      cases as with
+      | nil => simp [wsum]
+      | cons a u => simp [wsum, ih]
+  refine ⟨by simp [nbrCounts], ?_⟩
+  simp [nbrCounts, List.getD_eq_getElem?_getD, hc, hw]
+
+/-- **Actions stay inside the action set** after one call of `_play`, for any set/sequence of
+    revisers, any tie-breaking mode and stream. -/
+theorem liPlay_range (G : Game K) (adj : List (List K)) (revs old ri : List Nat)
+    (hn : 0 < G.A.length) (hold : ∀ v ∈ old, v < G.A.length) :
+    (liPlay G adj revs old ri).1.length = old.length ∧
+    ∀ v ∈ (liPlay G adj revs old ri).1, v < G.A.length := by
+  rw [liPlay_eq_foldl]
+  exact ⟨liFold_length G adj old revs (old, ri), liFold_range G adj old hn revs (old, ri) hold⟩
+
+omit [IsStrictOrderedRing K] in
+/-- **Asynchronous revision changes only the revisers**: a player not among the revisers keeps
+    its action. -/
+theorem li_async_changes_only_revisers (G : Game K) (adj : List (List K)) (revs old ri : List Nat)
+    (i : Nat) (hi : i ∉ revs) : (liPlay G adj revs old ri).1[i]? = old[i]? := by
+  rw [liPlay_eq_foldl]; exact liFold_untouched G adj old i revs (old, ri) hi
+
+/-- **Every reviser best-responds to the OLD profile** (`tie_breaking='smallest'`), for simultaneous
+    (`revs = range N`) and asynchronous revision alike: the new action of reviser `i` is the smallest
+    index `b` with `pv[b] ≥ max pv − tol`, where `pv = A · (neighbour weights per action in the profile
+    before the period)`; players updated earlier in the same period do not influence it. -/
+theorem li_uses_old_profile (G : Game K) (adj : List (List K)) (revs old ri : List Nat) (i : Nat)
+    (hrnd : G.rnd = false) (htol : 0 ≤ G.tol) (hn : 0 < G.A.length) (hi : i ∈ revs) (hil : i < old.length) :
+    let pv := payoffVec G.A (nbrCounts (adj.getD i []) old G.A.length)
+    ∃ b, (liPlay G adj revs old ri).1[i]? = some b ∧ (liPlay G adj revs old ri).2 = ri ∧
+      b < G.A.length ∧ maxL pv - G.tol ≤ pv.getD b 0 ∧ ∀ j, j < b → ¬ (maxL pv - G.tol ≤ pv.getD j 0) := by
+  intro pv
+  have hpv : pv ≠ [] := by
+    intro h
+    have := payoffVec_length G.A (nbrCounts (adj.getD i []) old G.A.length)
+    rw [show payoffVec G.A (nbrCounts (adj.getD i []) old G.A.length) = pv from rfl, h] at this
+    simp at this; omega
+  cases hs : brSet pv G.tol with
+  | nil => exact absurd hs (brSet_ne_nil pv G.tol hpv htol)
+  | cons b rest =>
+    obtain ⟨⟨hb1, hb2⟩, hb3⟩ := brSet_head_min pv G.tol b rest hs
+    refine ⟨b, ?_, ?_, ?_, hb2, hb3⟩
+    · rw [liPlay_eq_foldl, liFold_smallest G adj old i hrnd revs (old, ri) hi hil]
+      rw [show payoffVec G.A (nbrCounts (adj.getD i []) old G.A.length) = pv from rfl, hs]; rfl
+    · rw [liPlay_eq_foldl]; exact liFold_stream_smallest G adj old hrnd revs (old, ri)
+    · have := payoffVec_length G.A (nbrCounts (adj.getD i []) old G.A.length)
+      rw [show payoffVec G.A (nbrCounts (adj.getD i []) old G.A.length) = pv from rfl] at this
+      omega
+
+/-- the simultaneous case spelled out: with `revs = range N` every player `i < N` is a reviser -/
+example (N i : Nat) (h : i < N) : i ∈ List.range N := List.mem_range.2 h
+
+/-- **Along every history** of simultaneous / asynchronous revisions (any reviser lists, any
+    tie-breaking, any stream) all recorded action profiles have `N` entries inside the action set. -/
+theorem liStates_range (G : Game K) (adj : List (List K)) (N : Nat) (hn : 0 < G.A.length) :
+    ∀ (revss : List (List Nat)) (s : List Nat × List Nat),
+      s.1.length = N → (∀ v ∈ s.1, v < G.A.length) →
+      ∀ t ∈ liStates G adj revss s, t.1.length = N ∧ ∀ v ∈ t.1, v < G.A.length := by
+  intro revss
+  induction revss with
+  | nil => intro s hl hr t ht; simp [liStates] at ht; rw [ht]; exact ⟨hl, hr⟩
+  | cons revs rest ih =>
+    intro s hl hr t ht
+    simp only [liStates, List.mem_cons] at ht
+    rcases ht with rfl | ht
+    · exact ⟨hl, hr⟩
+    · obtain ⟨h1, h2⟩ := liPlay_range G adj revs s.1 s.2 hn hr
+      exact ih _ (by rw [h1]; exact hl) h2 t ht
+
+/-! ## LogitDynamics -/
+
+omit [IsStrictOrderedRing K] in
+/-- only the revising player's entry can change -/
+theorem logitStep_untouched (nums : List Nat) (tables : List (List (List K))) (iu : Nat × K)
+    (actions : List Nat) (j : Nat) (hj : j ≠ iu.1) :
+    (logitStep nums tables iu actions)[j]? = actions[j]? := by
+  simp [logitStep, List.getElem?_set_ne (Ne.symm hj)]
+
+/-- the cdf row the code reads for player `i` at profile `actions` -/
+def logitRow (nums : List Nat) (tables : List (List (List K))) (i : Nat) (actions : List Nat) : List K :=
+  (tables.getD i []).getD (flatIdx (rot i nums) (rot i actions)) []
+
+/-- **The logit choice stays inside the action set**: if the row read is a genuine cdf row of player
+    `i` (length `nums[i]`, positive last entry — `exp(·) > 0` summed) and `0 ≤ u < 1`, the new action of
+    player `i` is `< nums[i]`; it is the inverse-CDF choice: every cdf entry before it is `≤ u·cdf[-1]`
+    and the entry at it is `> u·cdf[-1]`. -/
+theorem logitStep_range (nums : List Nat) (tables : List (List (List K))) (i : Nat) (u : K)
+    (actions : List Nat) (hi : i < actions.length)
+    (hrow : logitRow nums tables i actions ≠ [])
+    (hlen : (logitRow nums tables i actions).length = nums.getD i 0)
+    (hpos : 0 < (logitRow nums tables i actions).getLast hrow) (hu : u < 1) :
+    ∃ a, (logitStep nums tables (i, u) actions)[i]? = some a ∧ a < nums.getD i 0 ∧
+      (∀ j, j < a → (logitRow nums tables i actions).getD j 0 ≤ u * (logitRow nums tables i actions).getLastD 0) ∧
+      u * (logitRow nums tables i actions).getLastD 0 < (logitRow nums tables i actions).getD a 0 := by
+  have hlt := logitChoice_lt (logitRow nums tables i actions) u hrow hpos hu
+  have hsp := searchRight_spec (logitRow nums tables i actions) (u * (logitRow nums tables i actions).getLastD 0)
+  refine ⟨logitChoice (logitRow nums tables i actions) u, ?_, by omega, hsp.1, hsp.2 hlt⟩
+  simp [logitStep, logitRow, hi]
+
+/-- every action lies inside its player's action set: `actions[j] < nums[j]` for all `j`,
+    and there is one action per player -/
+def InRange (nums actions : List Nat) : Prop := List.Forall₂ (fun m a => a < m) nums actions
+
+theorem inRange_set (nums actions : List Nat) (h : InRange nums actions) :
+    ∀ (i v : Nat), v < nums.getD i 0 → InRange nums (actions.set i v) := by
+  unfold InRange at h ⊢
+  induction h with
+  | nil => intro i v _; simp
+  | cons hab _ ih =>
+    intro i v hv
+    cases i with
+    | zero => exact List.Forall₂.cons (by simpa using hv) (by assumption)
+    | succ i => exact List.Forall₂.cons hab (ih i v (by simpa using hv))
+
+/-- well-formed cdf tables: player `i`'s table has one row per opponent profile (C-order over the
+    opponents `i+1, …, N-1, 0, …, i-1`), each row has one entry per own action and a positive last
+    entry (it is a running sum of `exp(·) > 0`) -/
+def LogitOK (nums : List Nat) (tables : List (List (List K))) : Prop :=
+  ∀ i, i < nums.length → (tables.getD i []).length = (rot i nums).prod ∧
+    ∀ row ∈ tables.getD i [], row.length = nums.getD i 0 ∧ ∃ h : row ≠ [], 0 < row.getLast h
+
+omit [IsStrictOrderedRing K] in
+/-- the row the code reads is a genuine row of the table (the flat index never leaves it) -/
+theorem logitRow_mem (nums : List Nat) (tables : List (List (List K))) (i : Nat) (actions : List Nat)
+    (hok : LogitOK nums tables) (hi : i < nums.length) (hr : InRange nums actions) :
+    logitRow nums tables i actions ∈ tables.getD i [] := by
+  have hrot : List.Forall₂ (fun m a => a < m) (rot i nums) (rot i actions) :=
+    List.rel_append (List.forall₂_drop (i + 1) hr) (List.forall₂_take i hr)
+  have hlt := flatIdx_lt (rot i nums) (rot i actions) hrot.length_eq
+    (fun p hp => List.forall₂_zip hrot (a := p.1) (b := p.2) hp)
+  rw [← (hok i hi).1] at hlt
+  have key : ∀ (tab : List (List K)) (k : Nat), k < tab.length → tab.getD k [] ∈ tab := by
+    intro tab k hk
+    rw [List.getD_eq_getElem?_getD, List.getElem?_eq_getElem hk, Option.getD_some]
+    exact List.getElem_mem hk
+  exact key _ _ hlt
+
+/-- **One logit revision keeps every action inside the action set** (any revising player `i < N`,
+    any uniform `u < 1`). -/
+theorem logitStep_inRange (nums : List Nat) (tables : List (List (List K))) (i : Nat) (u : K)
+    (actions : List Nat) (hok : LogitOK nums tables) (hi : i < nums.length) (hu : u < 1)
+    (hr : InRange nums actions) : InRange nums (logitStep nums tables (i, u) actions) := by
+  have hmem := logitRow_mem nums tables i actions hok hi hr
+  obtain ⟨hlen, hne, hpos⟩ := (hok i hi).2 _ hmem
+  have := logitChoice_lt (logitRow nums tables i actions) u hne hpos hu
+  exact inRange_set nums actions hr i _ (by rw [← hlen]; exact this)
+
+/-- **LogitDynamics keeps every action inside the action set along every history**: for every
+    sequence of revising players `< N` and uniforms `< 1`, every recorded profile is in range. -/
+theorem logitStates_inRange (nums : List Nat) (tables : List (List (List K))) (hok : LogitOK nums tables) :
+    ∀ (ius : List (Nat × K)) (s : List Nat), (∀ iu ∈ ius, iu.1 < nums.length ∧ iu.2 < 1) →
+      InRange nums s → ∀ t ∈ logitStates nums tables ius s, InRange nums t := by
+  intro ius
+  induction ius with
+  | nil => intro s _ hs t ht; simp [logitStates] at ht; rw [ht]; exact hs
+  | cons iu rest ih =>
+    intro s hin hs t ht
+    simp only [logitStates, List.mem_cons] at ht
+    rcases ht with rfl | ht
+    · exact hs
+    · obtain ⟨h1, h2⟩ := hin iu (by simp)
+      exact ih _ (fun q hq => hin q (List.mem_cons_of_mem _ hq))
+        (logitStep_inRange nums tables iu.1 iu.2 s hok h1 h2 hs) t ht
+
+/-! ## The search model is NumPy's `searchsorted(side='right')` -/
+
+/-- On a state with non-negative counts the running sums are sorted, `locate d p` satisfies the
+    documented post-condition of `np.searchsorted(cumsum, p, side='right')`, and it is the only
+    index that does. -/
+theorem locate_is_searchsorted (d : List Int) (p : Int) (hnn : ∀ j, j < d.length → 0 ≤ d.getD j 0) :
+    (cumsum d).Pairwise (· ≤ ·) ∧
+    (∀ j, j < locate d p → (cumsum d).getD j 0 ≤ p) ∧
+    (∀ j, locate d p ≤ j → j < (cumsum d).length → p < (cumsum d).getD j 0) ∧
+    ∀ r, r ≤ (cumsum d).length → (∀ j, j < r → (cumsum d).getD j 0 ≤ p) →
+      (∀ j, r ≤ j → j < (cumsum d).length → p < (cumsum d).getD j 0) → r = locate d p := by
+  have hs := (cumsumFrom_sorted d 0 hnn).1
+  exact ⟨hs, (searchRight_spec (cumsum d) p).1, searchRight_sorted (cumsum d) p hs,
+    fun r hr h1 h2 => searchRight_unique (cumsum d) p r hr h1 h2⟩
+
+/-! ## Random tie-breaking: the chosen action is a best response (guarded by valid draws) -/
+
+/-- **Random tie-breaking picks a best response** (BRD): if the drawn index is a valid index into
+    the set of best responses (what `randint(len)` returns), the reviser moves to an action `b`
+    with `pv[b] ≥ max pv − tol`, `pv = A · (d − e_a)`. -/
+theorem brd_random_is_best_response (ι : Int → K) (G : Game K) (inp : Inp K) (N : Int) (n : Nat)
+    (d : List Int) (ri : List Nat) (hA : G.A.length = n) (hv : Valid N n d)
+    (h0 : 0 ≤ inp.p) (hp : inp.p < N) (htol : 0 ≤ G.tol) :
+    let a := locate d inp.p
+    let pv := payoffVec G.A ((bump d a (-1)).map ι)
+    (G.rnd = true → (brSet pv G.tol).length ≠ 1 → ri.headD 0 < (brSet pv G.tol).length) →
+    ∃ b, (stepK ι G .brd inp (d, ri)).1 = move d a b ∧ b < n ∧ maxL pv - G.tol ≤ pv.getD b 0 := by
+  intro a pv hr
+  obtain ⟨ha, _, _, _⟩ := locate_spec N n d inp.p hv h0 hp
+  have hlen : pv.length = n := by rw [← hA]; exact payoffVec_length G.A _
+  have hpv : addPert (payoffVec G.A ((bump d a (-1)).map ι)) none ≠ [] := by
+    intro h
+    have : pv = [] := h
+    rw [this] at hlen; simp at hlen; omega
+  have hmem := brPick_mem_brSet G ((bump d a (-1)).map ι) none ri hpv htol hr
+  have := (mem_brSet pv G.tol _).1 hmem
+  exact ⟨(brPick G ((bump d a (-1)).map ι) none ri).1, rfl, by omega, this.2⟩
+
+/-- **Random tie-breaking picks a best response (SamplingBRD)**: same guard; `pv = A · bincount(sample)`. -/
+theorem sbrd_random_is_best_response (ι : Int → K) (G : Game K) (inp : Inp K) (d : List Int) (ri : List Nat)
+    (hn : 0 < G.A.length) (htol : 0 ≤ G.tol) :
+    let pv := payoffVec G.A ((bincount G.A.length inp.sample).map ι)
+    (G.rnd = true → (brSet pv G.tol).length ≠ 1 → ri.headD 0 < (brSet pv G.tol).length) →
+    ∃ b, (stepK ι G .sbrd inp (d, ri)).1 = move d (locate d inp.p) b ∧ b < G.A.length ∧
+      maxL pv - G.tol ≤ pv.getD b 0 := by
+  intro pv hr
+  have hlen : pv.length = G.A.length := payoffVec_length G.A _
+  have hpv : addPert (payoffVec G.A ((bincount G.A.length inp.sample).map ι)) none ≠ [] := by
+    intro h
+    have : pv = [] := h
+    rw [this] at hlen; simp at hlen; omega
+  have hmem := brPick_mem_brSet G ((bincount G.A.length inp.sample).map ι) none ri hpv htol hr
+  have := (mem_brSet pv G.tol _).1 hmem
+  exact ⟨(brPick G ((bincount G.A.length inp.sample).map ι) none ri).1, rfl, by omega, this.2⟩
+
+/-- **Exact SamplingBRD transition with `tie_breaking='smallest'`**: remove the reviser, add the
+    smallest best response to the sample's action counts `pv = A · bincount(sample)`. -/
+theorem sbrd_smallest_exact (ι : Int → K) (G : Game K) (inp : Inp K) (d : List Int) (ri : List Nat)
+    (hn : 0 < G.A.length) (hrnd : G.rnd = false) (htol : 0 ≤ G.tol) :
+    let pv := payoffVec G.A ((bincount G.A.length inp.sample).map ι)
+    ∃ b, stepK ι G .sbrd inp (d, ri) = (move d (locate d inp.p) b, ri) ∧ b < G.A.length ∧
+      maxL pv - G.tol ≤ pv.getD b 0 ∧ ∀ j, j < b → ¬ (maxL pv - G.tol ≤ pv.getD j 0) := by
+  intro pv
+  have hlen : pv.length = G.A.length := payoffVec_length G.A _
+  have hpv : addPert (payoffVec G.A ((bincount G.A.length inp.sample).map ι)) none ≠ [] := by
+    intro h
+    have : pv = [] := h
+    rw [this] at hlen; simp at hlen; omega
+  obtain ⟨b, e, ⟨hb1, hb2⟩, hb3⟩ :=
+    brPick_smallest G ((bincount G.A.length inp.sample).map ι) none ri hrnd hpv htol
+  refine ⟨b, ?_, ?_, hb2, hb3⟩
+  · show sbrdPlay ι G inp.sample (locate d inp.p) d ri = _
+    simp only [sbrdPlay, e, move]
+  · have : (addPert (payoffVec G.A ((bincount G.A.length inp.sample).map ι)) none).length = pv.length := rfl
+    omega
+
+omit [IsStrictOrderedRing K] in
+/-- KMR with a non-negative coin and `ε = 0` never mutates: it is BRD -/
+theorem kmr_eps_zero (ι : Int → K) (G : Game K) (inp : Inp K) (s : List Int × List Nat) (hu : 0 ≤ inp.u) :
+    stepK ι G (.kmr 0) inp s = stepK ι G .brd inp s := by
+  simp [stepK, playK, kmrPlay, not_lt.2 hu]
+
+/-- **Asynchronous revision by one player with random tie-breaking**: under the same guard on the
+    drawn index, the reviser's new action is a best response to the OLD profile. -/
+theorem li_async_random_is_best_response (G : Game K) (adj : List (List K)) (i : Nat) (old ri : List Nat)
+    (hn : 0 < G.A.length) (htol : 0 ≤ G.tol) (hil : i < old.length) :
+    let pv := payoffVec G.A (nbrCounts (adj.getD i []) old G.A.length)
+    (G.rnd = true → (brSet pv G.tol).length ≠ 1 → ri.headD 0 < (brSet pv G.tol).length) →
+    ∃ b, (liPlay G adj [i] old ri).1[i]? = some b ∧ b < G.A.length ∧ maxL pv - G.tol ≤ pv.getD b 0 := by
+  intro pv hr
+  have hlen : pv.length = G.A.length := payoffVec_length G.A _
+  have hpv : addPert (payoffVec G.A (nbrCounts (adj.getD i []) old G.A.length)) none ≠ [] := by
+    intro h
+    have : pv = [] := h
+    rw [this] at hlen; simp at hlen; omega
+  have hmem := brPick_mem_brSet G (nbrCounts (adj.getD i []) old G.A.length) none ri hpv htol hr
+  have := (mem_brSet pv G.tol _).1 hmem
+  refine ⟨(brPick G (nbrCounts (adj.getD i []) old G.A.length) none ri).1, ?_, by omega, this.2⟩
+  simp [liPlay, hil]
+
+/-- **Random tie-breaking, any set of revisers (simultaneous or asynchronous)**: if every index drawn
+    during the loop is a valid index into the then-current set of best responses (`LiGuard`, the
+    stream threaded exactly as the loop does), every reviser ends on a best response to the OLD
+    profile. -/
+theorem li_random_is_best_response (G : Game K) (adj : List (List K)) (revs old ri : List Nat) (i : Nat)
+    (hn : 0 < G.A.length) (htol : 0 ≤ G.tol) (hg : LiGuard G adj old revs ri) (hi : i ∈ revs)
+    (hil : i < old.length) :
+    let pv := payoffVec G.A (nbrCounts (adj.getD i []) old G.A.length)
+    ∃ b, (liPlay G adj revs old ri).1[i]? = some b ∧ b < G.A.length ∧ maxL pv - G.tol ≤ pv.getD b 0 := by
+  intro pv
+  obtain ⟨b, hb, hmem⟩ := liFold_random_mem G adj old i hn htol revs (old, ri) hg hi hil
+  have := (mem_brSet pv G.tol b).1 hmem
+  have hlen : pv.length = G.A.length := payoffVec_length G.A _
+  exact ⟨b, by rw [liPlay_eq_foldl]; exact hb, by omega, this.2⟩
+
+/-- **Fictitious play with random tie-breaking**: under the guards on the two drawn indices (the
+    second is read from the stream left by the first), both beliefs move towards best responses to
+    the *previous* beliefs. -/
+theorem fpStep_random_is_best_response (G0 G1 : Game K) (inp : FpInp K) (s : (List K × List K) × List Nat)
+    (ht0 : 0 ≤ G0.tol) (ht1 : 0 ≤ G1.tol)
+    (hpv0 : addPert (payoffVec G0.A s.1.2) inp.pert0 ≠ [])
+    (hpv1 : addPert (payoffVec G1.A s.1.1) inp.pert1 ≠ []) :
+    let pv0 := addPert (payoffVec G0.A s.1.2) inp.pert0
+    let pv1 := addPert (payoffVec G1.A s.1.1) inp.pert1
+    let ri1 := (brPick G0 s.1.2 inp.pert0 s.2).2
+    (G0.rnd = true → (brSet pv0 G0.tol).length ≠ 1 → s.2.headD 0 < (brSet pv0 G0.tol).length) →
+    (G1.rnd = true → (brSet pv1 G1.tol).length ≠ 1 → ri1.headD 0 < (brSet pv1 G1.tol).length) →
+    ∃ b0 b1, (fpStep G0 G1 inp s).1 = (scaleAdd s.1.1 inp.γ b0, scaleAdd s.1.2 inp.γ b1) ∧
+      maxL pv0 - G0.tol ≤ pv0.getD b0 0 ∧ maxL pv1 - G1.tol ≤ pv1.getD b1 0 := by
+  intro pv0 pv1 ri1 hr0 hr1
+  have m0 := brPick_mem_brSet G0 s.1.2 inp.pert0 s.2 hpv0 ht0 hr0
+  have m1 := brPick_mem_brSet G1 s.1.1 inp.pert1 ri1 hpv1 ht1 hr1
+  exact ⟨_, _, rfl, ((mem_brSet pv0 G0.tol _).1 m0).2, ((mem_brSet pv1 G1.tol _).1 m1).2⟩
+
+/-! ## Non-vacuity: the hypotheses above are satisfiable on non-trivial inputs, and the model
+    computes what the statements say (evaluated by the kernel on the same definitions). -/
+section examples
+
+/-- a 2-action coordination game with payoffs (2, 1), `tol = 0`, smallest tie-breaking -/
+def exG : Game Int := ⟨[[2, 0], [0, 1]], 0, false⟩
+def exGr : Game Int := ⟨[[1, 1], [1, 1]], 0, true⟩      -- everything ties, random tie-breaking
+def exInps : List (Inp Int) := [⟨0, 0, []⟩, ⟨2, 0, []⟩, ⟨1, 0, []⟩]
+
+example : Valid 3 2 [2, 1] := by
+  refine ⟨rfl, ?_, rfl⟩
+  intro j hj
+  have : j = 0 ∨ j = 1 := by simp at hj; omega
+  rcases this with rfl | rfl <;> decide
+example : ∀ inp ∈ exInps, 0 ≤ inp.p ∧ inp.p < 3 := by decide
+/-- BRD path: the player at index 2 (action 1) switches to action 0 -/
+example : (states (fun z => z) exG .brd exInps ([2, 1], [])).map Prod.fst
+    = [[2, 1], [2, 1], [3, 0], [3, 0]] := by decide
+/-- random tie-breaking consumes the stream: draws 1, 0, 1 select actions 1, 0, 1 -/
+example : states (fun z => z) exGr .brd exInps ([2, 1], [1, 0, 1])
+    = [([2, 1], [1, 0, 1]), ([1, 2], [0, 1]), ([2, 1], [1]), ([1, 2], [])] := by decide
+/-- KMR: `u < ε` mutates to the drawn action -/
+example : (states (fun z => z) exG (.kmr 1) [⟨0, 0, []⟩] ([2, 1], [1])).map Prod.fst = [[2, 1], [1, 2]] := by
+  decide
+/-- SamplingBRD: best response to the sample `[1, 1]` is action 1 -/
+example : (states (fun z => z) exG .sbrd [⟨0, 0, [1, 1]⟩] ([2, 1], [])).map Prod.fst = [[2, 1], [1, 2]] := by
+  decide
+example : setActionDist 3 [2, 0, 2, 2] = [1, 0, 3] := by decide
+/-- `IndexError` branch: player index 3 with 3 players -/
+example : series (fun z => z) exG .brd [⟨3, 0, []⟩] ([2, 1], []) = none := by decide
+/-- the stream hypothesis of `states_valid` is needed for KMR: an out-of-range "random action"
+    (which `randint(n)` never returns) would lose a player in the model -/
+example : (stepK (fun z => z) exG (.kmr 1) ⟨0, 0, []⟩ ([2, 1], [7])).1 = [1, 1] := by decide
+
+def fG : Game Rat := ⟨[[1, 0], [0, 1]], 0, false⟩
+
+example : FpOK fG fG (([1, 0], [0, 1]) : List Rat × List Rat) := by
+  unfold FpOK IsProb; decide +kernel
+/-- fictitious play, decreasing gain 1/2, 1/3: both players chase the other's last action -/
+example : (fpStates fG fG [⟨1/2, none, none⟩, ⟨1/3, none, none⟩] (([1, 0], [0, 1]), [])).map Prod.fst =
+    [([1, 0], [0, 1]), ([1/2, 1/2], [1/2, 1/2]), ([2/3, 1/3], [2/3, 1/3])] := by decide +kernel
+/-- a perturbation changes the best response (stochastic fictitious play) -/
+example : (fpStep fG fG ⟨1/2, some [0, 2], none⟩ (([1, 0], [1, 0]), [])).1 = ([1/2, 1/2], [1, 0]) := by
+  decide +kernel
+
+/-- a 3-player game, 2 actions each: every player wants to match player 0's … own axis order -/
+def gN : List (GameN Rat) :=
+  [⟨[1, 0, 0, 0, 0, 0, 0, 1], 0, false⟩, ⟨[1, 0, 0, 0, 0, 0, 0, 1], 0, false⟩, ⟨[1, 0, 0, 0, 0, 0, 0, 1], 0, false⟩]
+
+example : ShapeFrom [2, 2, 2] 0 gN := by
+  intro k hk
+  have : k = 0 ∨ k = 1 ∨ k = 2 := by simp [gN] at hk; omega
+  rcases this with rfl | rfl | rfl <;> simp [gN, rot]
+example : FpNOK [2, 2, 2] ([[1, 0], [0, 1], [1/2, 1/2]] : List (List Rat)) := by
+  unfold FpNOK IsProb; decide +kernel
+/-- payoff 1 only if all three coordinate: against (e₁, ½·½) player 0's payoffs are (0, ½) → action 1, … -/
+example : (fpStatesN gN [(1/2, [none, none, none])] ([[1, 0], [0, 1], [1/2, 1/2]], [])).map Prod.fst =
+    [[[1, 0], [0, 1], [1/2, 1/2]], [[1/2, 1/2], [1/2, 1/2], [3/4, 1/4]]] := by decide +kernel
+
+/-- local interaction on the directed 3-cycle, simultaneous revision: everyone copies its
+    predecessor's action (computed from the OLD profile) -/
+example : (liPlay fG [[0, 0, 1], [1, 0, 0], [0, 1, 0]] [0, 1, 2] [0, 1, 1] []).1 = [1, 0, 1] := by
+  decide +kernel
+/-- asynchronous: only player 0 moves -/
+example : (liPlay fG [[0, 0, 1], [1, 0, 0], [0, 1, 0]] [0] [0, 1, 1] []).1 = [1, 1, 1] := by
+  decide +kernel
+
+/-- random tie-breaking in the loop: all payoffs tie, the draws 1, 0, 1 are valid indices (`LiGuard`)
+    and select the actions 1, 0, 1 -/
+def gR : Game Rat := ⟨[[1, 1], [1, 1]], 0, true⟩
+example : LiGuard gR [[0, 0, 1], [1, 0, 0], [0, 1, 0]] [0, 1, 1] [0, 1, 2] [1, 0, 1] := by
+  simp only [LiGuard]; decide +kernel
+example : liPlay gR [[0, 0, 1], [1, 0, 0], [0, 1, 0]] [0, 1, 2] [0, 1, 1] [1, 0, 1] = ([1, 0, 1], []) := by
+  decide +kernel
+
+/-- logit choice on the cdf row (1/2, 3/2): `u = 1/3` gives `u·cdf[-1] = 1/2`, hence action 1 -/
+example : logitStep [2, 2] [[[1/2, 3/2], [1, 2]], [[1, 2], [1, 3/2]]] (0, (1/3 : Rat)) [0, 0] = [1, 0] := by
+  decide +kernel
+example : logitRow [2, 2] [[[1/2, 3/2], [1, 2]], [[1, 2], [1, 3/2]]] 0 [0, 0] = [(1/2 : Rat), 3/2] := by
+  decide +kernel
+example : LogitOK [2, 2] ([[[1/2, 3/2], [1, 2]], [[1, 2], [1, 3/2]]] : List (List (List Rat))) := by
+  intro i hi
+  have : i = 0 ∨ i = 1 := by simp at hi; omega
+  rcases this with rfl | rfl
+  · refine ⟨by decide, ?_⟩
+    intro row hrow
+    have : row = [1/2, 3/2] ∨ row = [1, 2] := by simpa using hrow
+    rcases this with rfl | rfl <;> exact ⟨by decide, by simp, by norm_num⟩
+  · refine ⟨by decide, ?_⟩
+    intro row hrow
+    have : row = [1, 2] ∨ row = [1, 3/2] := by simpa using hrow
+    rcases this with rfl | rfl <;> exact ⟨by decide, by simp, by norm_num⟩
+example : InRange [2, 2] [0, 1] := List.Forall₂.cons (by decide) (List.Forall₂.cons (by decide) List.Forall₂.nil)
+/-- without `u < 1` the choice leaves the action set (the reason for the hypothesis) -/
+example : logitChoice [(1/2 : Rat), 3/2] 1 = 2 := by decide +kernel
+
+end examples
 
 end QE.C20
